@@ -293,6 +293,11 @@ func fixup(n ast.Node) {
 		return true
 	})
 	ast.Inspect(n, func(x ast.Node) bool {
+		if bl, ok := x.(*ast.BasicLit); ok && bl.Kind == token.STRING && bl.Value != "" {
+			if _, err := strconv.Unquote(bl.Value); err != nil {
+				bl.Value = strconv.Quote(bl.Value) // the model gives the text, not necessarily a literal
+			}
+		}
 		if bl, ok := x.(*ast.BasicLit); ok && bl.Value == "" {
 			switch bl.Kind {
 			case token.STRING:
@@ -531,6 +536,36 @@ func contexts(category, snippet string) []string {
 	return []string{snippet}
 }
 
+// modelImports renders the import specs of a lazily initialised file
+// (file.Imports[i].Path.Value): equal path texts map to the same standard
+// package, different texts to different ones; blank aliases keep the file compiling.
+func modelImports(model map[string]interface{}, root string) string {
+	n := 0
+	if s, ok := model[root+".Imports#len"].(string); ok {
+		fmt.Sscan(s, &n)
+	}
+	if n == 0 {
+		return ""
+	}
+	std := []string{"fmt", "os", "io", "strings", "bytes", "sort", "errors", "time"}
+	assigned := map[string]string{}
+	var b strings.Builder
+	for i := 0; i < n; i++ {
+		key := fmt.Sprintf("%s.Imports[%d].Path.Value?s", root, i)
+		val, ok := model[key].(string)
+		if !ok {
+			val = fmt.Sprintf("#unread%d", i)
+		}
+		pkg, ok := assigned[val]
+		if !ok {
+			pkg = std[len(assigned)%len(std)]
+			assigned[val] = pkg
+		}
+		fmt.Fprintf(&b, "import _ %q\n", pkg)
+	}
+	return b.String()
+}
+
 type realised struct {
 	Source string
 	File   string
@@ -592,6 +627,10 @@ func realise(model map[string]interface{}, spec *lazySpecView, rootPath, categor
 	var out []string
 	var notes []string
 	seen := map[string]bool{}
+	extraImports := ""
+	if category == "file" {
+		extraImports = modelImports(model, rootPath)
+	}
 	for _, body := range bodies {
 		base := "package cand\n\n" + body
 		f, err := parser.ParseFile(token.NewFileSet(), "cand.go", base, parser.ParseComments)
@@ -644,7 +683,7 @@ func realise(model map[string]interface{}, spec *lazySpecView, rootPath, categor
 					decls.WriteString(d)
 				}
 			}
-			src := "package cand\n\n" + imports.String() + "\n" + body + "\n" + decls.String()
+			src := "package cand\n\n" + imports.String() + extraImports + "\n" + body + "\n" + decls.String()
 			if !seen[src] {
 				seen[src] = true
 				if ok, _ := typeCheck(src); ok {
@@ -700,6 +739,192 @@ import (
 type gsxJob struct {
 	Checker string                 ` + "`json:\"checker\"`" + `
 	Params  map[string]interface{} ` + "`json:\"params\"`" + `
+	Mode    string                 ` + "`json:\"mode\"`" + `
+}
+
+type gsxLoaded struct {
+	fset  *token.FileSet
+	f     *ast.File
+	tinfo *types.Info
+	pkg   *types.Package
+	name  string
+}
+
+func gsxLoad(imp types.Importer, file string) (*gsxLoaded, error) {
+	fset := token.NewFileSet()
+	f, err := parser.ParseFile(fset, file, nil, parser.ParseComments)
+	if err != nil {
+		return nil, err
+	}
+	tinfo := &types.Info{Types: map[ast.Expr]types.TypeAndValue{}, Defs: map[*ast.Ident]types.Object{}, Uses: map[*ast.Ident]types.Object{},
+		Implicits: map[ast.Node]types.Object{}, Selections: map[*ast.SelectorExpr]*types.Selection{}, Scopes: map[ast.Node]*types.Scope{},
+		Instances: map[*ast.Ident]types.Instance{}}
+	conf := types.Config{Importer: imp}
+	pkg, err := conf.Check("cand", fset, []*ast.File{f}, tinfo)
+	if err != nil {
+		return nil, err
+	}
+	return &gsxLoaded{fset: fset, f: f, tinfo: tinfo, pkg: pkg, name: filepath.Base(file)}, nil
+}
+
+func gsxTexts(l *gsxLoaded, ws []linter.Warning) []string {
+	var out []string
+	for _, w := range ws {
+		p := l.fset.Position(w.Pos)
+		out = append(out, fmt.Sprintf("%d:%d:%s", p.Line, p.Column, w.Text))
+	}
+	return out
+}
+
+// gsxRelational runs the history / locality / repetition comparisons.
+func gsxRelational(t *testing.T, job gsxJob, info *linter.CheckerInfo, dir string, imp types.Importer) {
+	groups, _ := filepath.Glob(filepath.Join(dir, "cand*_x.go"))
+	sort.Strings(groups)
+	for _, xfile := range groups {
+		base := xfile[:len(xfile)-len("_x.go")]
+		func() {
+			defer func() {
+				if r := recover(); r != nil {
+					fmt.Printf("GSX-REAL\t%s\tPANIC\t%q\n", xfile, fmt.Sprint(r))
+				}
+			}()
+			check := func(ctx *linter.Context, c *linter.Checker, l *gsxLoaded) []string {
+				ctx.FileSet = l.fset
+				ctx.SetPackageInfo(l.tinfo, l.pkg)
+				ctx.SetFileInfo(l.name, l.f)
+				return gsxTexts(l, c.Check(l.f))
+			}
+			fresh := func() (*linter.Context, *linter.Checker) {
+				ctx := linter.NewContext(token.NewFileSet(), types.SizesFor("gc", "amd64"))
+				c, err := linter.NewChecker(ctx, info)
+				if err != nil {
+					panic(err)
+				}
+				return ctx, c
+			}
+			x, err := gsxLoad(imp, xfile)
+			if err != nil {
+				fmt.Printf("GSX-REAL\t%s\tSKIP\tx: %v\n", xfile, err)
+				return
+			}
+			switch job.Mode {
+			case "history":
+				y, err := gsxLoad(imp, base+"_y.go")
+				if err != nil {
+					fmt.Printf("GSX-REAL\t%s\tSKIP\ty: %v\n", xfile, err)
+					return
+				}
+				ctx, c := fresh()
+				check(ctx, c, y)
+				long := check(ctx, c, x)
+				ctx2, c2 := fresh()
+				alone := check(ctx2, c2, x)
+				if fmt.Sprint(long) != fmt.Sprint(alone) {
+					fmt.Printf("GSX-REAL\t%s\tDIFF\t%q\n", xfile, fmt.Sprintf("after %s: %v; fresh: %v", filepath.Base(base+"_y.go"), long, alone))
+				} else {
+					fmt.Printf("GSX-REAL\t%s\tSAME\t%d\n", xfile, len(alone))
+				}
+			case "local":
+				d2, err := gsxLoad(imp, base+"_y.go")
+				if err != nil {
+					fmt.Printf("GSX-REAL\t%s\tSKIP\ty: %v\n", xfile, err)
+					return
+				}
+				both, err := gsxLoad(imp, base+"_xy.go")
+				if err != nil {
+					fmt.Printf("GSX-REAL\t%s\tSKIP\txy: %v\n", xfile, err)
+					return
+				}
+				strip := func(ws []string) []string {
+					var out []string
+					for _, w := range ws {
+						// drop line:col, keep the message
+						k := 0
+						for n := 0; n < 2; n++ {
+							for k < len(w) && w[k] != ':' {
+								k++
+							}
+							k++
+						}
+						out = append(out, w[k:])
+					}
+					return out
+				}
+				ctx, c := fresh()
+				w1 := strip(check(ctx, c, x))
+				ctx, c = fresh()
+				w2 := strip(check(ctx, c, d2))
+				ctx, c = fresh()
+				w12 := strip(check(ctx, c, both))
+				if fmt.Sprint(append(w1, w2...)) != fmt.Sprint(w12) {
+					fmt.Printf("GSX-REAL\t%s\tDIFF\t%q\n", xfile, fmt.Sprintf("separately: %v + %v; together: %v", w1, w2, w12))
+				} else {
+					fmt.Printf("GSX-REAL\t%s\tSAME\t%d\n", xfile, len(w12))
+				}
+			case "api":
+				kind, _ := job.Params["#kind"].(string)
+				name, _ := job.Params["#name"].(string)
+				ctx, c := fresh()
+				ws := check(ctx, c, x)
+				lines := map[int]bool{}
+				for _, w := range ws {
+					var ln int
+					fmt.Sscanf(w, "%d:", &ln)
+					lines[ln] = true
+				}
+				found := ""
+				ast.Inspect(x.f, func(n ast.Node) bool {
+					call, ok := n.(*ast.CallExpr)
+					if !ok || found != "" {
+						return true
+					}
+					var id *ast.Ident
+					switch f := call.Fun.(type) {
+					case *ast.Ident:
+						if kind == "builtin" && f.Name == name {
+							id = f
+						}
+					case *ast.SelectorExpr:
+						if q, ok := f.X.(*ast.Ident); ok && kind == "pkg" && q.Name == filepath.Base(name) {
+							id = q
+						}
+					}
+					if id == nil || !lines[x.fset.Position(call.Pos()).Line] {
+						return true
+					}
+					obj := x.tinfo.Uses[id]
+					real := false
+					switch o := obj.(type) {
+					case *types.Builtin:
+						real = kind == "builtin" && o.Name() == name
+					case *types.PkgName:
+						real = kind == "pkg" && o.Imported().Path() == name
+					}
+					if !real {
+						found = fmt.Sprintf("diagnostic %v on line %d where %s denotes %v", ws, x.fset.Position(call.Pos()).Line, id.Name, obj)
+					}
+					return true
+				})
+				if found != "" {
+					fmt.Printf("GSX-REAL\t%s\tDIFF\t%q\n", xfile, found)
+				} else {
+					fmt.Printf("GSX-REAL\t%s\tSAME\t%d\n", xfile, len(ws))
+				}
+			case "repeat":
+				ctx, c := fresh()
+				first := check(ctx, c, x)
+				for k := 0; k < 200; k++ {
+					ctx, c := fresh()
+					again := check(ctx, c, x)
+					if fmt.Sprint(again) != fmt.Sprint(first) {
+						fmt.Printf("GSX-REAL\t%s\tDIFF\t%q\n", xfile, fmt.Sprintf("run 0: %v; run %d: %v", first, k+1, again))
+						return
+					}
+				}
+				fmt.Printf("GSX-REAL\t%s\tSAME\t%d\n", xfile, len(first))
+			}
+		}()
+	}
 }
 
 func TestGSXRealise(t *testing.T) {
@@ -739,6 +964,10 @@ func TestGSXRealise(t *testing.T) {
 				}
 			}
 		}
+	}
+	if job.Mode != "" && job.Mode != "single" {
+		gsxRelational(t, job, info, dir, imp)
+		return
 	}
 	for _, file := range files {
 		func() {
@@ -839,15 +1068,24 @@ type realResult struct {
 
 // runRealised runs the real checker natively on each source; returns per-source results.
 func runRealised(checker string, params map[string]interface{}, sources []string, keepDir string) ([]realResult, error) {
+	files := map[string]string{}
+	for i, s := range sources {
+		files[fmt.Sprintf("cand%03d.go", i)] = s
+	}
+	return runRealisedFiles(checker, params, "single", files)
+}
+
+// runRealisedFiles runs the native test over named candidate files in the given mode.
+func runRealisedFiles(checker string, params map[string]interface{}, mode string, files map[string]string) ([]realResult, error) {
 	dir, err := os.MkdirTemp("", "gsx-realise-")
 	if err != nil {
 		return nil, err
 	}
 	defer os.RemoveAll(dir)
-	for i, s := range sources {
-		os.WriteFile(filepath.Join(dir, fmt.Sprintf("cand%03d.go", i)), []byte(s), 0o644)
+	for name, s := range files {
+		os.WriteFile(filepath.Join(dir, name), []byte(s), 0o644)
 	}
-	job, _ := json.Marshal(map[string]interface{}{"checker": checker, "params": params})
+	job, _ := json.Marshal(map[string]interface{}{"checker": checker, "params": params, "mode": mode})
 	os.WriteFile(filepath.Join(dir, "job.json"), job, 0o644)
 	testFile := filepath.Join(dir, "zz_verif_realise_test.go.txt")
 	os.WriteFile(testFile, []byte(realiseTestSrc), 0o644)
@@ -872,7 +1110,7 @@ func runRealised(checker string, params map[string]interface{}, sources []string
 		}
 		r := realResult{File: p[1], Status: p[2]}
 		switch p[2] {
-		case "PANIC", "SKIP":
+		case "PANIC", "SKIP", "DIFF", "SAME":
 			if len(p) > 3 {
 				r.Detail = p[3]
 			}
@@ -887,9 +1125,6 @@ func runRealised(checker string, params map[string]interface{}, sources []string
 	}
 	if len(res) == 0 && runErr != nil {
 		return nil, fmt.Errorf("native run failed: %v: %s", runErr, lastLines(out.String(), 12))
-	}
-	if keepDir != "" {
-		os.MkdirAll(keepDir, 0o755)
 	}
 	return res, nil
 }
